@@ -305,6 +305,12 @@ func (f *SimFile) Read(b []byte) (int, error) {
 		if d.fire(FReadShort) {
 			n = 1
 		}
+	} else if d.ReadMode == 2 && n > 1 {
+		// a writer that trickles: every read delivers a few bytes (a pipe fed line by line)
+		if k := 1 + d.w.T.Draw(12); k < n {
+			n = k
+			d.w.Faults["disk."+FReadShort]++
+		}
 	} else if d.ReadMode == 1 && n > 1 && d.Enabled[FReadShort] {
 		switch d.w.T.Draw(4) {
 		case 0: // full
@@ -473,6 +479,40 @@ func (d *Disk) WriteFile(p string, data []byte, perm fs.FileMode) error {
 	copy(cpd, data)
 	d.nodes[cp] = &node{data: cpd, perm: perm}
 	return nil
+}
+
+// ReadDirNative lists a directory in the order the file system happens to keep it (hash order,
+// creation order …): nothing a program may depend on. The order is a permutation chosen by the
+// tape whenever map orders are (World.MapMode == MapTape), the sorted one otherwise.
+func (d *Disk) ReadDirNative(p string) ([]fs.DirEntry, error) {
+	es, err := d.ReadDir(p)
+	if err != nil || len(es) < 2 {
+		return es, err
+	}
+	// treated like one more iteration-order site, so that a divergence can be attributed to it
+	const site = "fs.directory-order"
+	d.w.MapHits[site]++
+	if d.w.MapMode != MapTape || (d.w.MapOnly != nil && !d.w.MapOnly[site]) {
+		return es, err
+	}
+	n := len(es)
+	switch d.w.T.Draw(4) {
+	case 0:
+	case 1:
+		for i, j := 0, n-1; i < j; i, j = i+1, j-1 {
+			es[i], es[j] = es[j], es[i]
+		}
+	case 2:
+		k := 1 + d.w.T.Draw(n-1)
+		es = append(append([]fs.DirEntry{}, es[k:]...), es[:k]...)
+	case 3:
+		for i := n - 1; i > 0; i-- {
+			j := d.w.T.Draw(i + 1)
+			es[i], es[j] = es[j], es[i]
+		}
+	}
+	d.w.MapPermute[site]++
+	return es, nil
 }
 
 func (d *Disk) ReadDir(p string) ([]fs.DirEntry, error) {
